@@ -48,6 +48,7 @@ def fi(a: int, b: int = 0) -> int:
 def g2(a, b):
   return a
 xs: list[int] = []
+ys: list[int] = []
 '''
 
 # (id, core?, text).  {n} is replaced by the statement's index in the program so
@@ -56,9 +57,9 @@ TEMPLATES = [
     # --- single line, one per adjustable kind
     ("attr", 1, "x{n} = A().nope"),
     ("wat", 1, "x{n} = fi('s')"),
-    ("wac", 1, "x{n} = fi(1, 2, 3)"),
+    ("wac", 0, "x{n} = fi(1, 2, 3)"),
     ("brt", 1, "def r{n}() -> int:\n  return 's'"),
-    ("brt_imp_if", 1, "def r{n}(c) -> int:\n  if c:\n    return 1"),
+    ("brt_imp_if", 0, "def r{n}(c) -> int:\n  if c:\n    return 1"),
     ("brt_imp_def", 0, "def r{n}() -> int: pass"),
     ("brt_imp_last", 0, "def r{n}() -> int:\n  y = 1"),
     ("brt_imp_ml", 1, "def r{n}() -> int:\n  y = [\n    1,\n  ]"),
@@ -67,30 +68,35 @@ TEMPLATES = [
     ("atm", 1, "x{n}: int = 's'"),
     ("atm_cls", 0, "class K{n}:\n  y: int = 's'"),
     ("atm_param", 0, "def r{n}(a: int = 's'):\n  pass"),
-    ("uop", 1, "x{n} = 1 + 's'"),
+    ("uop", 0, "x{n} = 1 + 's'"),
     ("name", 1, "x{n} = nope"),
-    ("ncall", 1, "x{n} = A().v()"),
-    ("miss", 1, "x{n} = g2(1)"),
-    ("wkw", 1, "x{n} = fi(1, z=2)"),
+    ("ncall", 0, "x{n} = A().v()"),
+    ("miss", 0, "x{n} = g2(1)"),
+    ("wkw", 0, "x{n} = fi(1, z=2)"),
     ("ret_attr", 0, "def r{n}():\n  return A().nope"),
     ("callee", 0, "def h{n}(a):\n  return a.nope\nx{n} = h{n}(1)"),
     ("lambda", 0, "x{n} = (lambda a: a.nope)(1)"),
     ("compr", 0, "x{n} = [a.nope for a in [A()]]"),
     ("ctm", 0, "xs.append('s')"),
-    ("ctm_nested", 0, "x{n} = [\n  g2(xs.append('s'),\n    xs.append('t')),\n]"),
+    ("ctm_nested", 0, "x{n} = [\n  g2(xs.append('s'),\n    ys.append('t')),\n]"),
     ("name_nested", 0, "x{n} = [\n  g2(nope,\n    nope2),\n]"),
     # --- two errors on one line
     ("two_attr_wat", 1, "x{n} = fi(A().nope, 's')"),
     ("two_with", 0, "with A() as x{n}:\n  pass"),
     ("two_name_uop", 0, "x{n} = [nope, 1 + 's']"),
-    ("two_same", 1, "x{n} = [A().nope, A().nope2]"),
+    ("two_same", 0, "x{n} = [A().nope, A().nope2]"),
     ("two_wat", 0, "x{n} = fi('s'), fi(1, 's')"),
     ("two_semi", 0, "x{n} = A().nope; y{n} = fi('s')"),
     ("two_ret", 0, "def r{n}(c) -> int:\n  if c:\n    return 1\n  y = A().nope"),
     # --- multi-line call: error on first / middle / last physical line
-    ("call_first", 1, "x{n} = fi(\n  's',\n  2)"),
-    ("call_mid", 1, "x{n} = g2(\n  A().nope,\n  1\n)"),
-    ("call_last", 1, "x{n} = g2(\n  1,\n  A().nope)"),
+    ("call_first", 0, "x{n} = fi(\n  's',\n  2)"),
+    ("call_mid", 0, "x{n} = g2(\n  A().nope,\n  1\n)"),
+    ("call_last", 0, "x{n} = g2(\n  1,\n  A().nope)"),
+    ("call_mid_plain", 0, "x{n} = g2(\n  c0.nope,\n  1\n)"),
+    ("call_last_plain", 1, "x{n} = g2(\n  1,\n  c0.nope)"),
+    ("sub_mid_plain", 0, "x{n} = [1][\n  c0.nope\n]"),
+    ("cmp_last_plain", 0, "x{n} = (1 ==\n  c0.nope)"),
+    ("dec_ml_last_plain", 0, "@ident(\n  c0.nope\n)\ndef d{n}():\n  pass"),
     ("call_last_attr", 0, "x{n} = g2(\n  1,\n  2\n  ).nope"),
     ("call_two_lines", 0, "x{n} = g2(\n  nope,\n  1 + 's'\n)"),
     ("call_first_mid", 1, "x{n} = fi(\n  A().nope,\n  's')"),
@@ -109,7 +115,7 @@ TEMPLATES = [
     ("sub_mid", 0, "x{n} = [1][\n  A().nope\n]"),
     ("sub_last", 0, "x{n} = [1, 2][\n  0\n  ].nope"),
     # --- comparison
-    ("cmp_first", 1, "x{n} = (1 <\n  's')"),
+    ("cmp_first", 0, "x{n} = (1 <\n  's')"),
     ("cmp_mid", 0, "x{n} = (1 <\n  A().nope <\n  3)"),
     ("cmp_last", 0, "x{n} = (1 ==\n  A().nope)"),
     ("bin_last", 0, "x{n} = (1 +\n  2 +\n  's')"),
@@ -119,7 +125,7 @@ TEMPLATES = [
     ("with_mid", 0, "with open(\n  A().nope\n) as x{n}:\n  pass"),
     ("with_body", 0, "with open('f') as x{n}:\n  y{n} = x{n}.nope"),
     # --- decorated def / class
-    ("dec_name", 1, "@nope\ndef d{n}():\n  pass"),
+    ("dec_name", 0, "@nope\ndef d{n}():\n  pass"),
     ("dec_call", 0, "@fi('s')\ndef d{n}():\n  pass"),
     ("dec_ml", 1, "@fi(\n  's'\n)\ndef d{n}():\n  pass"),
     ("dec_ml_last", 0, "@g2(\n  1,\n  A().nope)\ndef d{n}():\n  pass"),
@@ -309,7 +315,9 @@ def judge(src, base_errors, base_pyi, new_src, new_errors, new_pyi, L, E, placem
     lost = [x for x in (B - N).elements() if not exempt(x)]
     gained = [x for x in (N - B).elements() if x not in left]
     if lost or gained:
-      sig = sorted(set([("lost", cls(x), where(x[1])) for x in lost] + [("gained", cls(x), where(x[1])) for x in gained]))
+      # position detail only for the directive's own class; other classes: inside / outside the statement
+      pos = lambda x: where(x[1]) if x[0] == E else ("in-stmt" if s <= x[1] <= e else "outside-stmt")
+      sig = sorted(set([("lost", cls(x), pos(x)) for x in lost] + [("gained", cls(x), pos(x)) for x in gained]))
       bad.append(("other-changed", sig, "%s appended to line %d (logical statement: lines %d-%d) changed other errors: lost [%s] gained [%s]" % (
           "`# type: ignore`" if ign else "`# pytype: disable=%s`" % E, L, s, e, _fmt(lost), _fmt(gained))))
   else:
